@@ -115,9 +115,29 @@ def suite_reentrant(ctx, focus=None):
         sched, rt = SCHEDULES[sname]
         inner_kind = rng.choice(['good', 'good', 'negative'])
         sw = rng.choice([(True, True, True), (False, False, False), (False, True, True), (True, True, False)])
-        base, _ = run(outer, inner, block, sched, inner_kind, sw, False, rt)
-        got, st = run(outer, inner, block, sched, inner_kind, sw, True, rt)
+        import signal
+
+        class _Hang(BaseException):
+            pass
+
+        def _alarm(signum, frame):
+            raise _Hang()
+        old_handler = signal.signal(signal.SIGALRM, _alarm)
+        hung = False
+        try:
+            signal.setitimer(signal.ITIMER_REAL, 8, 1)      # fires again every second: library code that swallows the first interruption is interrupted again
+            base, _ = run(outer, inner, block, sched, inner_kind, sw, False, rt)
+            got, st = run(outer, inner, block, sched, inner_kind, sw, True, rt)
+        except _Hang:
+            hung = True
+        finally:
+            signal.setitimer(signal.ITIMER_REAL, 0)
+            signal.signal(signal.SIGALRM, old_handler)
         s.evaluations += 1
+        if hung:
+            s.fail({'site': 'nrc78_callback', 'class': 'hang', 'input': '%s; nrc78_callback calls %s; replies: %s' % (outer[0], inner[0], sname),
+                    'observed': 'the call did not come back within 8 s of real time (virtual clock: every wait is instantaneous)', 'required': 'a result or a documented exception'})
+            continue
         label = '%s; nrc78_callback calls %s (answered %s); %s; switches %s; replies: %s' % (
             outer[0], inner[0], inner_kind, 'no suppress block' if block is None else 'inside suppress_positive_response(wait_nrc=%s)' % block, sw, sname)
         s.distinct.add(label)
